@@ -165,6 +165,13 @@ def run(ctx):
             txt = gen.render_trivia(g, r, "plain").replace("   */\n", "   */\n// ordinary\n", 1)
             _, o3 = build("doc_then_comment", txt)
             out["variants"].append(("doc_then_comment", txt, diff_outputs(o1, o3)))
+        # documentation in front of constants and errors of an interface: only methods carry
+        # documentation, so these blocks change nothing - in particular they do not wander to a later method
+        ptxt = gen.render_trivia(f, r, "plain")
+        dtxt = re.sub(r"(?m)^(\s*)(const |error )", lambda m_: "%s/**\n%s * stray %s\n%s */\n%s%s" % (m_.group(1), m_.group(1), m_.group(2).strip(), m_.group(1), m_.group(1), m_.group(2)), ptxt)
+        if dtxt != ptxt:
+            _, o4 = build("doc_before_nonmethod", dtxt)
+            out["variants"].append(("doc_before_nonmethod", dtxt, diff_outputs(ref, o4)))
         # marking: only a comment block is prepended
         for mname, mtext in (("marking", "Copyright (c) someone\nAll rights reserved. // plain\n"),
                              ("marking_slashes", "// SPDX-License-Identifier: BSD-3-Clause\nCopyright (c) someone\n  indented line\n\n# not a directive\n//\nlast line without newline"),
